@@ -166,7 +166,17 @@ def check_handshake(ck: Checker, rid: str, mod):
             p = path_avoiding(cfg, [e for e in cfg.succ[tests[0].id] if e.kind == 'T'], {loop.id, cfg.exit_return}, avoid=joins)
             if p is not None:
                 probs.append('a failed handshake does not lead to join() of the failed worker')
-        ck.ob(rid, f, loop.ast.iter, not probs, '; '.join(probs) if probs else 'each iteration starts one worker and waits for exactly one handshake; a None handshake joins the worker (raising its error)')
+        # a worker is recorded as started only after its handshake arrived: a worker whose __init__ failed must
+        # never sit in `self._workers` (the rollback joins that list; joining the failed worker re-raises its error
+        # half-way through, leaving the list and the started flag in a state that poisons every later enter/exit)
+        gets = {n.id for n in cfg.nodes if w_get(n)}
+        recs = [n for n in cfg.nodes if header_expr(n) is not None and any(method_of(c)[1] == 'append' and dotted(method_of(c)[0]) == 'self._workers' for c in calls_in(header_expr(n)))]
+        if not recs:
+            probs.append('started workers are not recorded in self._workers')
+        for rn in recs:
+            if path_avoiding(cfg, [e for e in cfg.succ[loop.id] if e.kind == 'iter'], {rn.id}, avoid=gets) is not None:
+                probs.append('a worker is recorded in `self._workers` before its handshake arrived: if its __init__ failed, the rollback joins it, is interrupted by its error and leaves it in the list — the servlet can no longer be stopped or entered again cleanly')
+        ck.ob(rid, f, loop.ast.iter, not probs, '; '.join(probs) if probs else 'each iteration starts one worker, waits for exactly one handshake and only then records the worker; a None handshake joins the worker (raising its error)')
     # Worker.run: exactly one handshake put on both outcomes of __init__
     f = ck.repo.func(WORKER, 'Worker.run')
     sc = Scope(f)
@@ -276,9 +286,12 @@ def check_pairing(ck: Checker, rid: str, mod):
             if (kind, attr) not in joined:
                 probs.append(f'`self.{attr}` receives a started thread/process in start() but stop() does not join {"every element of " if kind == "list" else ""}it')
         if cname in COMPOUND:
-            members = any(isinstance(n, ast.For) and dotted(n.iter) == 'self._servlets' and isinstance(n.target, ast.Name) and any(isinstance(y, ast.Call) and method_of(y)[1] == 'stop' and is_name(method_of(y)[0], n.target.id) for b in n.body for y in ast.walk(b)) for g in self_closure(sp) for n in walk_shallow_func(g.node))
-            if not members:
-                probs.append('stop() does not stop every member servlet')
+            loops_ = [n for g in self_closure(sp) for n in walk_shallow_func(g.node) if isinstance(n, ast.For) and isinstance(n.target, ast.Name) and any(isinstance(y, ast.Call) and method_of(y)[1] == 'stop' and is_name(method_of(y)[0], n.target.id) for b in n.body for y in ast.walk(b))]
+            members = [n for n in loops_ if dotted(n.iter) == 'self._servlets']
+            if not loops_:
+                probs.append('stop() does not stop the member servlets')
+            elif not members:
+                probs.append(f'stop() walks the members as `{norm_text(loops_[0].iter)}`, not in start order `self._servlets`: the end sentinel flows downstream, so an upstream member must be stopped first — otherwise it blocks writing into the pipe of a stage that is already gone and its join never returns')
         elif not started:
             probs.append('start() does not record the workers it starts')
         ck.ob(rid, sp, (sp.node.lineno, f'{cname}.stop'), not probs, '; '.join(probs) if probs else f'stop() joins {sorted(started)}' + (' and stops every member servlet' if cname in COMPOUND else ''))
